@@ -154,13 +154,17 @@ def graph_grammars(tier, seed):
     return out
 
 
-def resolve_mechanism(tier, seed, v, corrupt=None, env=None):
+def resolve_mechanism(tier, seed, v, corrupt=None, env=None, limit=None):
     """Resolve.tla / ResolveTrace.tla: (i) trace validation - the steps the instrumented get_nonterminals_resolution_order reported
     (hook events ro_*, feature `verif`) are a behaviour of the model whose constants are the GENERATOR's dependency graph, and the
     verdict of validation is the one the model ends in (cycle error iff the graph is cyclic: a C08 verdict, confirmed with the real
     binary before it is reported); (ii) design level - every iteration order on every graph of three definitions (notes)."""
     import os, subprocess, tempfile
     cases = graph_grammars(tier, seed)
+    if limit:
+        cases = cases[::max(1, len(cases) // limit)]
+        for k, c in enumerate(cases):
+            c["id"] = k + 1
     rec = core.record("order", [{"id": c["id"], "usage": c["usage"], "shell": c["shell"]} for c in cases])
     tcases, graph_differs = [], 0
     for c, r in zip(cases, rec):
